@@ -9,6 +9,7 @@ CONSTANTS
  Prefill = 0
  MaxBlk = 14
  LinkFirst = TRUE
+ ClearRetries = TRUE
 INVARIANTS NoDup NoFab Conservation SnapshotCovers EmptyTruthful BoundOK
 POSTCONDITION TraceAccepted
 CHECK_DEADLOCK FALSE
